@@ -57,6 +57,9 @@ KINDS = ["set", "set", "tset", "new", "qset", "setq"]
 
 def corpus():
     return [
+        # Python route + tuple subclass (F11: Tuple.validate rebuilds a plain tuple) over a coerce member (F42): the
+        # responsible member must still be found below the compound (acceptor / rebuilt_tuple)
+        '#a|(self 5)|x:(Prop (Either 0 (CompoundH (Tuple (CoerceH str) (CoerceH complex) (RangeF 0 8 0 0)) (Either 1 (String 1 3 N) (EnumH (i 1) (s a))) (Tuple (Base Int) (Enum (f 4) (t (i 1) (i 2))) Float CFloat) (Tuple Complex Int CBool)) (Tuple (CompoundH (CoerceH complex) (InstanceH (u 2) 1))) (Either 0 (Tuple (Type object 1) (This 0) Str) Float) (Either 0 (Either 1 (CastH int) (FunctionH 2)) (Either 0 (Callable 1) (FunctionH 2) Any (Type (u 2) 0)) (Base Float))));y:Int;z:(Map ((s yes) (i 1)) ((s no) (i 0)))|set x (ts (f 4))',
         # F125 (fixed baa32de): the slow member of a nested compound resolves a forward reference and re-installs the
         # trait's validator while validate_trait_complex walks it (was a use after free / segmentation fault)
         "#n:forward-ref-in-nested-compound|-|(Either 0 (Either 0 (Either 0 Str (InstanceF 1)) Int) Int)|"
@@ -556,6 +559,14 @@ def raiser(t, value, ctx, obj, en):
     return V.trait_head(t)
 
 
+def rebuilt_tuple(r, stored, ctx):
+    """The member probed alone (compiled validator) hands a tuple-SUBCLASS instance back as it is, while the
+    Python validator of Tuple (the one a Python route such as Property(T) runs) stores a new plain tuple of the
+    same items (finding F11): the member is still the one responsible for `stored`."""
+    return (isinstance(r, tuple) and type(r) is not tuple and type(stored) is tuple and len(r) == len(stored)
+            and all(same(a, b, ctx) for a, b in zip(r, stored)))
+
+
 def acceptor(t, value, stored, ctx, obj):
     """The innermost member responsible for `stored`: the alternative that alone
     yields it / the tuple element the reference objects to.  (term, value, stored)"""
@@ -565,7 +576,7 @@ def acceptor(t, value, stored, ctx, obj):
                 continue
             ct = V.as_ctrait(V.build_trait(m, ctx))
             out, r, _ = V.show_outcome(lambda: ct.validate(obj, "x", value), ctx)
-            if out.startswith("ok ") and same(r, stored, ctx):
+            if out.startswith("ok ") and (same(r, stored, ctx) or rebuilt_tuple(r, stored, ctx)):
                 return acceptor(m, value, stored, ctx, obj)
     elif isinstance(t, list) and t[0] in ("Tuple", "BaseTuple", "ValidatedTuple") and isinstance(value, (tuple, list)) \
             and isinstance(stored, (tuple, list)) \
